@@ -20,6 +20,11 @@
 //	(3) end-to-end: hundreds of short real queries over a small ingested data set with
 //	    cancels at random points and MAX_RUNNING_QUERIES = 2; afterwards both tables must be
 //	    empty and the goroutine population is compared with the baseline (observed only).
+//	(3b) evaluator streams (child processes): pipelines naming absent fields; ~170 eval
+//	    expressions whose index/length/count arguments are computed from stored values of
+//	    boundary lengths (the process must keep running, the query must end in a result or
+//	    an error; class per function); the real substr on an exhaustive small grid, compared
+//	    with the model EvalIdx in Coq.
 //	(4) robustness stream (NOT proof): grammar-derived and mutated query texts per language
 //	    through the real parse entry points, twice each, in a child process with a timeout
 //	    (parser_panic, parser_hang, plan_nondeterministic).
@@ -36,6 +41,7 @@ import (
 	"regexp"
 	"runtime"
 	"sort"
+	"strconv"
 	"strings"
 	"sync"
 	"sync/atomic"
@@ -50,6 +56,7 @@ import (
 	"github.com/siglens/siglens/pkg/segment/memory/limit"
 	"github.com/siglens/siglens/pkg/segment/query"
 	"github.com/siglens/siglens/pkg/segment/structs"
+	sutils "github.com/siglens/siglens/pkg/segment/utils"
 	"github.com/siglens/siglens/pkg/segment/writer"
 	serverutils "github.com/siglens/siglens/pkg/server/utils"
 	vtable "github.com/siglens/siglens/pkg/virtualtable"
@@ -1057,14 +1064,32 @@ func workerFamily(dir, in, outp string) {
 		fmt.Fprintln(os.Stderr, "ingest:", err)
 		os.Exit(4)
 	}
+	// index "evl": strings of boundary lengths x numbers around zero, for the eval-function stream
+	sb.Reset()
+	k := 0
+	for _, sv := range evalStrings {
+		for _, nv := range evalNumbers {
+			k++
+			fmt.Fprintf(&sb, "{\"index\":{\"_index\":\"evl\"}}\n")
+			fmt.Fprintf(&sb, "{\"timestamp\":%d,\"s\":%s,\"n\":%s,\"id\":%d}\n", tsBase+uint64(k)*1000, strconv.Quote(sv), nv, k)
+		}
+	}
+	if _, _, err := eswriter.HandleBulkBody([]byte(sb.String()), nil, 2, 0, false); err != nil {
+		fmt.Fprintln(os.Stderr, "ingest:", err)
+		os.Exit(4)
+	}
 	zero := time.Duration(0)
 	writer.FlushWipBufferToFile(&zero, &zero)
 	outcomes := make([]string, 0, len(qs))
 	for i, q := range qs {
 		_ = os.WriteFile(outp+".progress", []byte(fmt.Sprint(i)), 0o644)
+		index := "fam"
+		if strings.HasPrefix(q, "evl::") {
+			index, q = "evl", strings.TrimPrefix(q, "evl::")
+		}
 		req := map[string]interface{}{
-			"searchText": q, "indexName": "fam", "startEpoch": tsBase - 1000, "endEpoch": tsBase + 100000000,
-			"size": uint64(100), "from": uint64(0), "queryLanguage": "Splunk QL", "state": "query",
+			"searchText": q, "indexName": index, "startEpoch": tsBase - 1000, "endEpoch": tsBase + 100000000,
+			"size": uint64(1000), "from": uint64(0), "queryLanguage": "Splunk QL", "state": "query",
 		}
 		ch := make(chan string, 1)
 		go func() {
@@ -1092,6 +1117,82 @@ func workerFamily(dir, in, outp string) {
 		ob, _ := json.Marshal(outcomes)
 		_ = os.WriteFile(outp, ob, 0o644)
 	}
+}
+
+// ---------------------------------------------------------------------------
+// worker: the real substr (TextExpr.EvaluateText) on an exhaustive small grid
+// ---------------------------------------------------------------------------
+
+type GridObs struct {
+	S     []byte `json:"s"` // bytes, not text: a slice may cut a UTF-8 sequence and JSON would replace the fragment
+	Start int    `json:"st"`
+	HasL  bool   `json:"hl"`
+	Len   int    `json:"l"`
+	Code  int    `json:"c"` // 0 string returned, 1 error, 2 panic
+	Res   []byte `json:"r"`
+	Msg   string `json:"m,omitempty"`
+}
+
+func findSubstrExpr(text string) (*structs.TextExpr, error) {
+	_, aggs, _, err := pipesearch.ParseQuery(text, 1, "Splunk QL")
+	if err != nil {
+		return nil, err
+	}
+	for a := aggs; a != nil; a = a.Next {
+		if a.OutputTransforms != nil && a.OutputTransforms.LetColumns != nil && a.OutputTransforms.LetColumns.ValueColRequest != nil {
+			v := a.OutputTransforms.LetColumns.ValueColRequest
+			if v.StringExpr != nil && v.StringExpr.TextExpr != nil && v.StringExpr.TextExpr.Op == "substr" {
+				return v.StringExpr.TextExpr, nil
+			}
+		}
+	}
+	return nil, fmt.Errorf("no substr expression found in the plan of %q", text)
+}
+
+func workerSubstrGrid(outp string) {
+	config.InitializeTestingConfig(filepath.Dir(outp) + "/data_grid/")
+	var out struct {
+		Obs []GridObs `json:"obs"`
+		Err string    `json:"err,omitempty"`
+	}
+	strs := []string{}
+	for k := 0; k <= 8; k++ {
+		strs = append(strs, "abcdefgh"[:k])
+	}
+	strs = append(strs, "h\u00e9\u00e9x") // 6 bytes, 4 characters: the code indexes bytes
+	num := func(n int) string { return fmt.Sprint(n) }
+	for st := -3; st <= 8; st++ {
+		for l := -9; l <= 8; l++ { // -9 stands for "no length argument"
+			text := fmt.Sprintf("* | eval r=substr(s, %s, %s)", num(st), num(l))
+			if l == -9 {
+				text = fmt.Sprintf("* | eval r=substr(s, %s)", num(st))
+			}
+			te, err := findSubstrExpr(text)
+			if err != nil {
+				out.Err = err.Error()
+				break
+			}
+			for _, sv := range strs {
+				o := GridObs{S: []byte(sv), Start: st, HasL: l != -9, Len: l}
+				func() {
+					defer func() {
+						if p := recover(); p != nil {
+							o.Code, o.Msg = 2, fmt.Sprint(p)
+						}
+					}()
+					r, err := te.EvaluateText(map[string]sutils.CValueEnclosure{"s": {Dtype: sutils.SS_DT_STRING, CVal: sv}})
+					if err != nil {
+						o.Code = 1
+					} else {
+						o.Res = []byte(r)
+					}
+				}()
+				out.Obs = append(out.Obs, o)
+			}
+		}
+	}
+	b, _ := json.Marshal(out)
+	_ = os.WriteFile(outp, b, 0o644)
 }
 
 // ---------------------------------------------------------------------------
@@ -1577,6 +1678,68 @@ func genFamily(r *vhlib.Rng, n int) (main []string, known []string) {
 	return
 }
 
+// ---- eval-function stream: stored values of boundary lengths, arguments computed from the data ----
+var evalStrings = []string{"", "a", "ab", "abcde", "abcdef", "[req]ok!", "abcdefghi", "abcdefghij", "abcdefghijklmnopqrstuvwxyz",
+	"h\u00e9\u00e9", "\u65e5\u672c\u8a9e", "a b  c", "  pad  ", "12", "-7", "3.5", "1e3", "%41%zz", "a,b,,c", "192.168.1.7", "{\"a\":{\"b\":1}}", "2023-11-14"}
+var evalNumbers = []string{"-5", "-1", "0", "1", "3", "7", "64", "1000000", "2.5", "-0.5"}
+
+// function -> expressions over the fields s (string) and n (number)
+var evalFnExprs = map[string][]string{
+	"substr": {`substr(s, 6, len(s)-10)`, `substr(s, n, len(s)-3)`, `substr(s, n)`, `substr(s, n*-1, n)`, `substr(s, len(s)-2, n-2)`, `substr(s, 1, n*-1)`,
+		`substr(s, 3, -1)`, `substr(s, n*1000000000000, 2)`, `substr(s, 2, n*1000000000000)`, `substr(s, len(s), 1)`, `substr(s, len(s)+1, 0)`, `substr(s, 0, 0)`},
+	"trim":    {`ltrim(s, "a")`, `rtrim(s, "j!")`, `trim(s)`, `trim(s, " a")`, `ltrim(s, s)`, `rtrim(s, "")`, `trim(s, "\u00e9")`},
+	"replace": {`replace(s, "a", "$1")`, `replace(s, "(a)(b)", "\\2\\1")`, `replace(s, "", "x")`, `replace(s, "[", "x")`, `replace(s, s, s)`, `replace(s, "(", "\\9")`},
+	"split":   {`split(s, "")`, `split(s, ",")`, `split(s, s)`, `mvcount(split(s, ""))`, `mvjoin(split(s, ""), s)`},
+	"mvindex": {`mvindex(split(s, ""), n)`, `mvindex(split(s, ""), n, len(s)-3)`, `mvindex(split(s, ""), n*-1, n)`, `mvindex(split(s, ","), len(s)-10, n-2)`,
+		`mvindex(split(s, ""), n*1000000000000)`, `mvindex(split(s, ""), 2, -1)`, `mvindex(split(s, ""), -1, -3)`, `mvindex(s, n)`},
+	"mvfind":  {`mvfind(split(s, ""), "b")`, `mvfind(split(s, ","), s)`},
+	"mvrange": {`mvrange(n, len(s), 2)`, `mvrange(1, 10, n)`, `mvrange(0, n, 0)`, `mvrange(n, n*-1, -1)`, `mvrange(0, len(s), 1)`, `mvrange(len(s), 0, 1)`, `mvrange(1, n, "1")`},
+	"mvmisc":  {`mvzip(split(s, ""), split(s, ","), s)`, `mvdedup(split(s, ""))`, `mvsort(split(s, ""))`, `mvappend(s, split(s, ""))`, `mv_to_json_array(split(s, ","))`, `mvzip(s, s)`},
+	"printf":  {`printf("%5d|%-8s|%.3f", n, s, n)`, `printf(s, n)`, `printf("%*d", n, n)`, `printf("%")`, `printf("%d", s)`, `printf("%.999f", n)`, `printf("%s %s", s)`, `printf("%c", n)`},
+	"tostring": {`tostring(n, "hex")`, `tostring(n, "commas")`, `tostring(n, "duration")`, `tostring(s, "hex")`, `tostring(n/0)`, `tostring(n*1000000000000, "duration")`, `tostring(n, s)`},
+	"strftime": {`strftime(n, "%Y-%m-%d %H:%M:%S")`, `strftime(n*1000000000000, "%Y")`, `strftime(n, s)`, `strftime(n, "%")`, `strftime(n*-100000000000000000, "%c")`},
+	"strptime": {`strptime(s, "%Y-%m-%d")`, `strptime(s, s)`, `strptime(s, "%")`, `strptime("", "")`},
+	"relative_time": {`relative_time(n, "-1d@d")`, `relative_time(n*1000000000000, "+1000000y")`},
+	"tonumber": {`tonumber(s)`, `tonumber(s, n)`, `tonumber(s, 16)`, `tonumber(s, 37)`, `tonumber(s, n*-1)`, `tonumber(s, 1)`},
+	"case":    {`len(s)`, `lower(s)`, `upper(s)`, `urldecode(s)`, `typeof(s)`, `typeof(n)`, `if(isnum(n), 1, 0)`, `if(isstr(s), 1, 0)`},
+	"spath":   {`spath(s, "a.b")`, `spath(s, s)`, `spath(s, "")`, `spath(s, "a{0}.b")`},
+	"ip":      {`ipmask("255.255.255.0", s)`, `ipmask(s, "1.2.3.4")`, `if(cidrmatch("10.0.0.0/8", s), 1, 0)`, `if(cidrmatch(s, s), 1, 0)`, `ipmask("255.255", s)`},
+	"match":   {`if(like(s, "a%"), 1, 0)`, `if(like(s, s), 1, 0)`, `if(match(s, "^a"), 1, 0)`, `if(match(s, s), 1, 0)`, `if(match(s, "["), 1, 0)`, `if(like(s, "%[%"), 1, 0)`},
+	"round":   {`round(n/3, n)`, `round(n, n*-1)`, `round(n, n*1000000000000)`, `sigfig(n/3)`, `exact(n/3)`, `floor(n/0)`, `ceil(n*-1/7)`, `round(n/0)`, `sigfig(0)`, `round(n, 400)`},
+	"pow":     {`pow(n, n)`, `pow(n, n*-1)`, `pow(0, -1)`, `sqrt(n*-1)`, `sqrt(n)`, `log(n)`, `log(n, n)`, `log(n, 1)`, `log(n*-1, 2)`, `ln(n)`, `ln(0)`, `exp(n)`, `exp(n*1000)`, `pow(-8, 1/3)`},
+	"arith":   {`n/0`, `n%0`, `n/(n-1)`, `n%(n-3)`, `(n*1000000000000)*(n*1000000000000)`, `abs(n)`, `n/len(s)`, `len(s)%n`, `n*-1%2.5`},
+	"bit":     {`bit_and(n, 7)`, `bit_or(n, len(s))`, `bit_xor(n, n-2)`, `bit_not(n)`, `bit_shift_left(n, n)`, `bit_shift_left(1, n*-1)`, `bit_shift_right(n, 64)`,
+		`bit_shift_left(1, n*1000000000000)`, `bit_shift_right(1, n*-1)`, `bit_shift_left(n, 63)`},
+	"trig":    {`acos(n)`, `asin(n/3)`, `acosh(n)`, `atanh(n)`, `atan2(n, 0)`, `hypot(n, n*1000000000000)`, `cosh(n*100)`, `tan(n)`},
+	"cond":    {`if(n>0, substr(s, n), s)`, `case(n<0, "neg", n=0, "zero", n>0, s)`, `coalesce(null(), s)`, `nullif(s, s)`, `validate(n>0, "neg", len(s)>3, "short")`,
+		`if(in(s, "a", "ab"), 1, 0)`, `if(isnull(substr(s, 99)), "x", "y")`},
+	"concat":  {`s.s`, `s.n`, `n.n`, `s."-".tostring(n)`, `upper(s).lower(s)`},
+}
+
+// class of the one panic the clean tree is known to have, if any (filled after the first runs)
+var evalFnKnown = map[string]string{}
+
+func genEvalFn() (main []string, known []string, fnOf map[string]string) {
+	fnOf = map[string]string{}
+	fns := make([]string, 0, len(evalFnExprs))
+	for f := range evalFnExprs {
+		fns = append(fns, f)
+	}
+	sort.Strings(fns)
+	for _, f := range fns {
+		for _, e := range evalFnExprs[f] {
+			q := "evl::* | eval r=" + e
+			fnOf[q] = f
+			if _, k := evalFnKnown[e]; k {
+				known = append(known, q)
+			} else {
+				main = append(main, q)
+			}
+		}
+	}
+	return
+}
+
 type famResult struct {
 	Outcomes map[string]string // query -> result | error | nil | crash: <stderr tail>
 	Order    []string
@@ -1737,8 +1900,20 @@ func main() {
 			workerE2E(a[1], seed, n, a[4])
 		case "parse":
 			workerParse(a[1], a[2], a[3])
+		case "substrgrid":
+			workerSubstrGrid(a[1])
 		case "family":
 			workerFamily(a[1], a[2], a[3])
+		case "evallist": // replay aid: the queries of the eval-function stream as JSON
+			m, k, _ := genEvalFn()
+			b, _ := json.Marshal(append(m, k...))
+			_ = os.WriteFile(a[1], b, 0o644)
+			config.InitializeTestingConfig("/tmp/C17_parsedump/")
+			for _, q := range append(m, k...) {
+				if _, _, _, err := pipesearch.ParseQuery(strings.TrimPrefix(q, "evl::"), 1, "Splunk QL"); err != nil {
+					fmt.Println("does not parse:", q)
+				}
+			}
 		case "parse1": // one text, no watchdog inside: the parent's timeout decides
 			config.InitializeTestingConfig(filepath.Dir(a[3]) + "/data_parse1/")
 			t0 := time.Now()
@@ -1949,6 +2124,30 @@ func main() {
 	famMain, famKnown := genFamily(r.Fork(), nFam)
 	var famRes, famKnownRes famResult
 	spawn(func() { famRes = runFamily(wdir, "main", famMain) })
+	// the real substr on the exhaustive grid start -3..8 x length none,-8..8 x 10 strings of 0..8 bytes
+	var grid struct {
+		Obs []GridObs `json:"obs"`
+		Err string    `json:"err"`
+	}
+	gridOK := false
+	spawn(func() {
+		op := filepath.Join(wdir, "substrgrid.json")
+		tail, err := runWorker(60*time.Second, "substrgrid", op)
+		if b, rerr := os.ReadFile(op); rerr == nil && json.Unmarshal(b, &grid) == nil && grid.Err == "" {
+			gridOK = true
+		} else {
+			mu.Lock()
+			sum.HarnessError(fmt.Sprintf("substr grid worker: %v %s %s", err, grid.Err, tail))
+			mu.Unlock()
+		}
+	})
+	// eval functions with arguments computed from stored values of boundary lengths
+	evMain, evKnown, evFn := genEvalFn()
+	var evRes, evKnownRes famResult
+	spawn(func() { evRes = runFamily(wdir, "evalfn", evMain) })
+	if len(evKnown) > 0 {
+		spawn(func() { evKnownRes = runFamily(wdir, "evalfn_known", evKnown) })
+	}
 	spawn(func() { famKnownRes = runFamily(wdir, "known", famKnown) })
 
 	// known classes: parse time of the two PEG parsers grows exponentially with parenthesis nesting
@@ -2017,6 +2216,66 @@ func main() {
 				sum.Fail("query_not_answered", fmt.Sprintf("query %q: %s", q, o), c)
 			}
 		}
+	}
+
+	for _, fr := range []famResult{evRes, evKnownRes} {
+		for _, q := range fr.Order {
+			o, ok := fr.Outcomes[q]
+			if !ok {
+				continue
+			}
+			expr := strings.TrimPrefix(q, "evl::* | eval r=")
+			fn := evFn[q] // the group; the class names the outermost function of the expression when there is one
+			if i := strings.IndexAny(expr, "( "); i > 0 && expr[i] == '(' && !strings.ContainsAny(expr[:i], "+-*/%.\"") {
+				fn = expr[:i]
+			}
+			sum.Eval("evalfn/"+q, true)
+			kind := o
+			if strings.HasPrefix(o, "crash") {
+				kind = "crash"
+			}
+			sum.Count("evalfn_outcome/" + kind)
+			sum.Count("evalfn/" + fn + "/" + kind)
+			c := map[string]interface{}{"language": "Splunk QL", "query": strings.TrimPrefix(q, "evl::"), "function": fn,
+				"data": fmt.Sprintf("index with fields s in %q and n in %v (all pairs), one flush", evalStrings, evalNumbers)}
+			switch {
+			case strings.HasPrefix(o, "crash"):
+				cls := "eval_function_panics_on_stored_data_" + fn
+				if k, isK := evalFnKnown[expr]; isK {
+					cls = k
+				}
+				sum.Fail(cls, fmt.Sprintf("`* | eval r=%s` over stored strings of boundary lengths ends the whole process: %s", expr, o), c)
+			case strings.HasPrefix(o, "panic"):
+				sum.Fail("eval_function_panics_on_stored_data_"+fn, fmt.Sprintf("`* | eval r=%s`: %s", expr, o), c)
+			case strings.HasPrefix(o, "no answer"):
+				sum.Fail("eval_function_not_answered_"+fn, fmt.Sprintf("`* | eval r=%s`: %s", expr, o), c)
+			}
+		}
+	}
+
+	if gridOK {
+		coqZ := func(n int) string {
+			if n < 0 {
+				return fmt.Sprintf("(%d)%%Z", n)
+			}
+			return fmt.Sprintf("%d%%Z", n)
+		}
+		items := make([]string, 0, len(grid.Obs))
+		for _, o := range grid.Obs {
+			sum.Eval(fmt.Sprintf("substrgrid/%d/%d/%v/%d", len(o.S), o.Start, o.HasL, o.Len), true)
+			sum.Count(fmt.Sprintf("substr_grid/outcome_%d", o.Code))
+			ln := "None"
+			if o.HasL {
+				ln = "(Some " + coqZ(o.Len) + ")"
+			}
+			items = append(items, fmt.Sprintf("(%s, %s, %s, %d, %s)", vhlib.CoqBytes(o.S), coqZ(o.Start), ln, o.Code, vhlib.CoqBytes(o.Res)))
+			if o.Code == 2 {
+				sum.Fail("eval_function_panics_on_stored_data_substr", fmt.Sprintf("TextExpr.EvaluateText substr(%q, %d, length=%v %d) panics: %s (in a query this ends the process)", o.S, o.Start, o.HasL, o.Len, o.Msg),
+					map[string]interface{}{"function": "substr", "string": o.S, "start": o.Start, "has_length": o.HasL, "length": o.Len})
+			}
+		}
+		sum.WriteCaseFile(cfg.Out, "cases_substr_grid", "From SigM Require Import Base EvalIdx EvalIdxCheck.\nFrom Coq Require Import ZArith.",
+			"Definition grid : list (list N * Z * option Z * N * list N) := "+vhlib.CoqListNL(items)+".\n", "check_grid grid O", len(items))
 	}
 
 	// ---- evaluate step streams ----
